@@ -33,6 +33,13 @@ def talkStep (st : TalkSt) (toks : List String) : TalkSt × String :=
     let (w', _, _) := st.w.step (.deliver (bytesOf rid) (sKey peer) (parseAddr addr))
     if w'.reqs.length == st.w.reqs.length then ({ st with w := w' }, "-") else
     ({ st with w := w' }, s!"talkreq:#{w'.reqs.length}:{hexOrDash (bytesOf rid)}")
+  -- the service could not hand the object to the application (event stream full): it is dropped at once
+  | ["tdeliverfull", peer, addr, rid] =>
+    if !st.started then (st, "noop") else
+    let (w1, _, _) := st.w.step (.deliver (bytesOf rid) (sKey peer) (parseAddr addr))
+    if w1.reqs.length == st.w.reqs.length then ({ st with w := w1 }, "-") else
+    let (w2, _, outs) := w1.step (.use (w1.reqs.length - 1) .dropOnly)
+    ({ st with w := w2 }, line (showResps (outs.map (·.2))))
   | ["trespond", i, payload] =>
     match st.w.reqs[nat! i - 1]? with
     | some (some _) =>
